@@ -270,6 +270,115 @@ def gen_layout(tier):
                 yield {"sub": "layout-" + gtype, "spec": spec, "observers": ["kin", "euler"]}
 
 
+# ---- histories: the same system object is modified through its public setters, then observed ----------------
+
+HIST_OPS = [("state", 1, 23.5), ("state", 4, 0.0), ("kf", 0, {"e0": 1.25, "e1": 2.75}), ("kr", 0, 4.5), ("D", 1, {"e1": 1.5, "default": 0.25}),
+            ("env", 1, 0), ("vol", 0, 4.0), ("chem", 2, 1)]
+
+
+def apply_hist_op(system, spec, op):
+    """Applies one modification to the live system object AND to the plain spec the reference is computed from."""
+    kind, i, v = op
+    n = ratelaw.ncells(spec["space"])
+    if kind == "state":
+        s, c = divmod(i, n)
+        system.set_state(s, c, v)
+        spec["state"][i] = float(v)
+    elif kind in ("kf", "kr"):
+        r = system.network.reactions[i]
+        setattr(r, kind, v)
+        spec["reactions"][i][kind] = v
+    elif kind == "D":
+        system.network.species[i].D = v
+        spec["species"][i]["D"] = v
+    elif kind == "env":
+        if spec["space"]["type"] == "grid":
+            em = list(spec["space"]["env"])
+            em[i] = v
+            system.space.cell_env = em
+            spec["space"]["env"] = em
+        else:
+            system.space.nodes[i].environment = v
+            spec["space"]["nodes"][i]["env"] = v
+    elif kind == "vol":
+        if spec["space"]["type"] == "grid":
+            system.space.cell_vol = v
+            spec["space"]["vol"] = float(v)
+        else:
+            system.space.nodes[i].volume = v
+            spec["space"]["nodes"][i]["vol"] = float(v)
+    elif kind == "chem":
+        s, c = divmod(i, n)
+        system.set_chemostat(s, c, v)
+        spec["chemostats"][i] = int(v)
+
+
+def hist_spec(gtype):
+    envs = ["e0", "e1"]
+    if gtype == "grid":
+        space = {"type": "grid", "w": 3, "h": 1, "d": 1, "env": [0, 1, 1], "vol": 2.0, "bc": {"x": "periodical"}}
+    else:
+        space = {"type": "graph", "nodes": [{"vol": 1.0, "env": 0}, {"vol": 8.0, "env": 1}, {"vol": 0.5, "env": 1}],
+                 "edges": [[0, 1, 1.5, 0.75], [2, 1, 2.5, 1.25]]}
+    return {"species": [{"label": "A", "D": {"e0": 2.0, "e1": 6.0}}, {"label": "B", "D": 3.0}],
+            "reactions": [{"eq": [[["A", 1], ["B", 1]], [["B", 2]]], "kf": {"e0": 3.0, "default": 2.0}, "kr": 0.5}],
+            "envs": envs, "space": space, "state": [2.0, 3.0, 5.0, 7.0, 11.0, 13.0], "chemostats": [0, 0, 0, 0, 0, 0]}
+
+
+def check_history(case):
+    import copy
+    out = []
+    spec = hist_spec(case["gtype"])
+    try:
+        system = models.build_system(spec)
+    except Exception as e:
+        return [("C01:build:unexpected-exception", "%s: %s" % (type(e).__name__, e))]
+    spec = copy.deepcopy(spec)
+    for q, opi in enumerate(case["ops"]):
+        op = HIST_OPS[opi]
+        if case.get("observe_before") and q == len(case["ops"]) - 1:
+            # an observation between the modifications (warms any cache a future refactor might add)
+            try:
+                kinetics.compute_dstatedt(system)
+                models.build_script({"system": spec, "t_sample": [0], "time_step": DT, "t_max": 0, "policy": "on_iteration"}, system=system)
+            except Exception:
+                pass
+        try:
+            apply_hist_op(system, spec, op)
+        except Exception as e:
+            return [("C01:history:setter-exception:%s" % op[0], "%s: %s" % (type(e).__name__, e))]
+    sub = {"sub": "history-" + case["gtype"], "spec": spec, "observers": ["kin", "euler"]}
+    f, sc = ratelaw.rhs(spec, apply_chemostats=True)
+    n = len(f)
+    zeros = [0.0] * n
+    try:
+        a = kinetics.compute_dstatedt(system)
+        _cmp("compute_dstatedt:history-%s:after-%s" % (case["gtype"], HIST_OPS[case["ops"][-1]][0]), [float(v) for v in a.value], f, sc, zeros, out)
+    except Exception as e:
+        out.append(("C01:compute_dstatedt:history:unexpected-exception", "%s: %s" % (type(e).__name__, e)))
+    try:
+        scr = models.build_script({"system": spec, "t_sample": [0], "time_step": DT, "t_max": 0, "policy": "on_iteration"}, system=system)
+        traj, nit = eng.simulate("euler", scr)
+        t, d = models.traj_arrays(traj)
+        got = [(b - a_) / DT for a_, b in zip(d[0], d[1])]
+        extra = [8e-16 * (abs(a_) + abs(b)) / DT for a_, b in zip(d[0], d[1])]
+        _cmp("euler-step:history-%s:after-%s" % (case["gtype"], HIST_OPS[case["ops"][-1]][0]), got, f, sc, extra, out)
+    except Exception as e:
+        out.append(("C01:euler:history:unexpected-exception", "%s: %s" % (type(e).__name__, e)))
+    return out
+
+
+def gen_history(tier):
+    nops = len(HIST_OPS)
+    for gtype in ("grid", "graph"):
+        for a in range(nops):
+            yield {"sub": "history-" + gtype, "history": True, "gtype": gtype, "ops": [a]}
+        for a in range(nops):
+            for b in range(nops):
+                for ob in ((False, True) if tier == "thorough" else (True,)):
+                    yield {"sub": "history-" + gtype, "history": True, "gtype": gtype, "ops": [a, b], "observe_before": ob}
+
+
 _CASES = None
 
 
@@ -277,6 +386,13 @@ def _work(job):
     lo, hi = job
     acc = core.Acc()
     for case in _CASES[lo:hi]:
+        if case.get("history"):
+            res = check_history(case)
+            acc.add(states=1, transitions=len(case["ops"]) + 2, traces=2, evaluations=12, nontrivial=1)
+            acc.count("cases:" + case["sub"])
+            for key, what in res:
+                acc.violation(key, what, case)
+            continue
         res = check_case(case)
         nobs = len(case["observers"])
         f, sc = ratelaw.rhs(case["spec"])
@@ -302,7 +418,9 @@ def run(ctx):
             ("diffusion law on grids: shapes w,h,d<=3 within the cell bound x boundary combinations x environment "
              "maps (all maps for <=4 cells) x D patterns incl. a zero-D wall", gen_diffusion_grid),
             ("diffusion law on graphs: all simple graphs on 1..4 nodes x environment maps x D patterns", gen_diffusion_graph),
-            ("layout: all ordered pairs of an 8-reaction catalogue x 3 environment/cell configurations", gen_layout)]
+            ("layout: all ordered pairs of an 8-reaction catalogue x 3 environment/cell configurations", gen_layout),
+            ("histories: one system object modified through its public setters (state entry, kf, kr, D, cell environment, volume, "
+             "chemostat flag) - every single modification and every ordered pair of 8 - then observed (kinetics + Euler step)", gen_history)]
     _CASES = []
     sizes = []
     for name, g in gens:
@@ -330,4 +448,6 @@ def run(ctx):
 
 
 def replay(case):
+    if case.get("history"):
+        return check_history(case)
     return check_case(case)
